@@ -30,7 +30,7 @@
 //
 //	ca <present><ca><trusted_ca_certs><pem_files><trusted_leaf><verifiers><mode>     (7 digits)
 //	    one client_authentication block given field by field: present 0|1 (0: no block, all other
-//	    digits 0); ca 0|1 (inline ca module); trusted_ca_certs / trusted_ca_certs_pem_files /
+//	    digits 0); ca 0 | 1 inline ca module | 2 inline ca module that fails to load; trusted_ca_certs / trusted_ca_certs_pem_files /
 //	    trusted_leaf_certs 0 absent | 1 loadable | 2 not loadable (bad base64, missing file);
 //	    verifiers 0|1 (leaf verifier with a pem loader); mode 0 "" | 1 request | 2 require |
 //	    3 verify_if_given | 4 require_and_verify | 5 an unknown string.
@@ -39,6 +39,18 @@
 //	  answer: err | before=<Active() before> auth=<tls.ClientAuthType 0..4> cas=<ClientCAs!=nil>
 //	          vpc=<VerifyPeerCertificate!=nil> tix=<SessionTicketsDisabled> ver=<a foreign client
 //	          certificate is rejected by VerifyPeerCertificate> after=<Active() after> strict=<0|1>
+//
+//	cf <strictopt> <sites>
+//	    a Caddyfile run through the REAL adapter, its http app through the real App.Provision.
+//	    strictopt: n no option | b `strict_sni_host` | t `… on` | f `… insecure_off` | x `… off` (rejected)
+//	    sites     S;S;…  S = <name index 0..3>/<subs>   (names a.test b.test secret.test k.test, distinct)
+//	              subs  ~ no tls directive | . `tls { client_auth { } }` | letters, one per subdirective:
+//	              r q g R x `mode request|require|verify_if_given|require_and_verify|bogus`,
+//	              k K `trusted_ca_cert <good|bad base64>`, f F `trusted_ca_cert_file <readable|missing>`,
+//	              l M `trusted_leaf_cert <good|bad>`, j J `trusted_leaf_cert_file <readable|missing>`,
+//	              p P `trust_pool inline { trust_der <good|bad> }`, v `verifier verif_c19`
+//	  answer: err:adapt | err:provision | strict=<0|1> a=<ClientAuth type of the policy chosen for each
+//	          site name and for zz.test> r=<for each of those SNIs, each site name as Host: in:<k>|in:*|421>
 //
 //	e2e <srv> <hs> <sniHex> <hostHex>
 //	    a REAL crypto/tls handshake (client without certificate, over an in-memory pipe) against the
@@ -73,6 +85,9 @@ import (
 	"time"
 
 	"github.com/caddyserver/caddy/v2"
+	"github.com/caddyserver/caddy/v2/caddyconfig"
+	"github.com/caddyserver/caddy/v2/caddyconfig/caddyfile"
+	_ "github.com/caddyserver/caddy/v2/caddyconfig/httpcaddyfile"
 	_ "github.com/caddyserver/caddy/v2/modules/caddyevents"
 	"github.com/caddyserver/caddy/v2/modules/caddyhttp"
 	"github.com/caddyserver/caddy/v2/modules/caddytls"
@@ -218,7 +233,27 @@ func (p probeHandler) ServeHTTP(w http.ResponseWriter, _ *http.Request, _ caddyh
 	return nil
 }
 
-func init() { caddy.RegisterModule(probeHandler{}) }
+// probeVerifier: a client-certificate verifier module usable from a Caddyfile (the built-in `leaf`
+// verifier has no Caddyfile syntax); it rejects every certificate.
+type probeVerifier struct{}
+
+func (probeVerifier) CaddyModule() caddy.ModuleInfo {
+	return caddy.ModuleInfo{ID: "tls.client_auth.verifier.verif_c19", New: func() caddy.Module { return new(probeVerifier) }}
+}
+
+func (probeVerifier) VerifyClientCertificate([][]byte, [][]*x509.Certificate) error {
+	return fmt.Errorf("verif_c19: rejected")
+}
+
+func (*probeVerifier) UnmarshalCaddyfile(d *caddyfile.Dispenser) error {
+	d.Next()
+	return nil
+}
+
+func init() {
+	caddy.RegisterModule(probeHandler{})
+	caddy.RegisterModule(probeVerifier{})
+}
 
 // ---------------------------------------------------------------- prop
 
@@ -665,6 +700,8 @@ func (p *prop) Run(line string) core.Outcome {
 		o = p.runPol(f)
 	case len(f) == 5 && f[0] == "enf":
 		o = p.runEnf(f)
+	case len(f) == 3 && f[0] == "cf":
+		o = p.runCF(f)
 	case len(f) == 2 && f[0] == "ca":
 		o = p.runCA(f)
 	case len(f) == 5 && f[0] == "e2e":
@@ -1239,7 +1276,7 @@ func (p *prop) runCA(f []string) core.Outcome {
 	if len(d) != 7 {
 		return bad
 	}
-	lim := "1122215"
+	lim := "1222215"
 	for i := 0; i < 7; i++ {
 		if d[i] < '0' || d[i] > lim[i] {
 			return bad
@@ -1258,8 +1295,11 @@ func (p *prop) runCA(f []string) core.Outcome {
 	var block map[string]any
 	if d[0] == '1' {
 		block = map[string]any{}
-		if d[1] == '1' {
+		switch d[1] {
+		case '1':
 			block["ca"] = map[string]any{"provider": "inline", "trusted_ca_certs": []string{p.caB64}}
+		case '2':
+			block["ca"] = map[string]any{"provider": "inline", "trusted_ca_certs": []string{"!!!not-base64!!!"}}
 		}
 		switch d[2] {
 		case '1':
@@ -1374,4 +1414,215 @@ func (p *prop) loadServer(strict string, pols []any, sites []string) (*caddyhttp
 		return nil, err
 	}
 	return v.(*caddyhttp.App).Servers["s"], nil
+}
+
+// ---------------------------------------------------------------- Caddyfile glue
+
+var cfNames = []string{"a.test", "b.test", "secret.test", "k.test"}
+
+func (p *prop) cfSub(c byte) (string, bool) {
+	missing := p.dir + "/does-not-exist.pem"
+	switch c {
+	case 'r':
+		return "mode request", true
+	case 'q':
+		return "mode require", true
+	case 'g':
+		return "mode verify_if_given", true
+	case 'R':
+		return "mode require_and_verify", true
+	case 'x':
+		return "mode bogus_mode", true
+	case 'k':
+		return "trusted_ca_cert " + p.caB64, true
+	case 'K':
+		return "trusted_ca_cert !!!not-base64!!!", true
+	case 'f':
+		return "trusted_ca_cert_file " + p.caFile, true
+	case 'F':
+		return "trusted_ca_cert_file " + missing, true
+	case 'l':
+		return "trusted_leaf_cert " + p.caB64, true
+	case 'M':
+		return "trusted_leaf_cert !!!not-base64!!!", true
+	case 'j':
+		return "trusted_leaf_cert_file " + p.caFile, true
+	case 'J':
+		return "trusted_leaf_cert_file " + missing, true
+	case 'p':
+		return "trust_pool inline {\n\t\t\t\ttrust_der " + p.caB64 + "\n\t\t\t}", true
+	case 'P':
+		return "trust_pool inline {\n\t\t\t\ttrust_der !!!not-base64!!!\n\t\t\t}", true
+	case 'v':
+		return "verifier verif_c19", true
+	}
+	return "", false
+}
+
+type cfSite struct {
+	idx  int
+	subs string // "~", ".", or letters
+}
+
+func (p *prop) runCF(f []string) core.Outcome {
+	bad := core.Outcome{Impl: "bad-op"}
+	var opt string
+	switch f[1] {
+	case "n":
+	case "b":
+		opt = "strict_sni_host"
+	case "t":
+		opt = "strict_sni_host on"
+	case "f":
+		opt = "strict_sni_host insecure_off"
+	case "x":
+		opt = "strict_sni_host off"
+	default:
+		return bad
+	}
+	var sites []cfSite
+	seen := map[int]bool{}
+	for _, ss := range strings.Split(f[2], ";") {
+		parts := strings.Split(ss, "/")
+		if len(parts) != 2 || len(parts[0]) != 1 || parts[0][0] < '0' || parts[0][0] > '3' || parts[1] == "" {
+			return bad
+		}
+		i := int(parts[0][0] - '0')
+		if seen[i] {
+			return bad
+		}
+		seen[i] = true
+		if parts[1] != "~" && parts[1] != "." {
+			for k := 0; k < len(parts[1]); k++ {
+				if _, ok := p.cfSub(parts[1][k]); !ok {
+					return bad
+				}
+			}
+		}
+		sites = append(sites, cfSite{i, parts[1]})
+	}
+	var o core.Outcome
+	tag := func(t string) { o.Tags = append(o.Tags, t) }
+	fail := func(class, what string) {
+		o.Failures = append(o.Failures, core.Failure{Class: class, What: what})
+	}
+	tag("cf")
+	tag("cf:strictopt=" + f[1])
+	// ---- the Caddyfile
+	var sb strings.Builder
+	sb.WriteString("{\n\tauto_https off\n")
+	if opt != "" {
+		sb.WriteString("\tservers {\n\t\t" + opt + "\n\t}\n")
+	}
+	sb.WriteString("}\n")
+	anyBlock := false
+	for k, st := range sites {
+		fmt.Fprintf(&sb, "https://%s {\n", cfNames[st.idx])
+		if st.subs != "~" {
+			anyBlock = true
+			sb.WriteString("\ttls {\n\t\tclient_auth {\n")
+			if st.subs != "." {
+				for j := 0; j < len(st.subs); j++ {
+					line, _ := p.cfSub(st.subs[j])
+					sb.WriteString("\t\t\t" + line + "\n")
+				}
+			}
+			sb.WriteString("\t\t}\n\t}\n")
+		}
+		fmt.Fprintf(&sb, "\trespond \"S%d\"\n}\n", k)
+	}
+	if !anyBlock {
+		tag("trivial")
+	}
+	adapter := caddyconfig.GetAdapter("caddyfile")
+	if adapter == nil {
+		return core.Outcome{Impl: "harness-no-caddyfile-adapter"}
+	}
+	cfgJSON, _, err := adapter.Adapt([]byte(sb.String()), map[string]any{"filename": "Caddyfile"})
+	if err != nil {
+		tag("cf:err:adapt")
+		o.Impl = "err:adapt"
+		return o
+	}
+	var top struct {
+		Apps map[string]json.RawMessage `json:"apps"`
+	}
+	if err := json.Unmarshal(cfgJSON, &top); err != nil || top.Apps["http"] == nil {
+		return core.Outcome{Impl: "harness-adapted-json-unreadable"}
+	}
+	v, err := p.ctx.LoadModuleByID("http", top.Apps["http"])
+	if err != nil {
+		tag("cf:err:provision")
+		o.Impl = "err:provision"
+		return o
+	}
+	app := v.(*caddyhttp.App)
+	var srv *caddyhttp.Server
+	for _, sv := range app.Servers {
+		if len(sv.TLSConnPolicies) > 0 || srv == nil {
+			srv = sv
+		}
+	}
+	if srv == nil || len(app.Servers) != 1 {
+		return core.Outcome{Impl: fmt.Sprintf("unexpected-servers:%d", len(app.Servers))}
+	}
+	strict := srv.StrictSNIHost != nil && *srv.StrictSNIHost
+	tlsCfg := srv.TLSConnPolicies.TLSConfig(p.ctx)
+	var names []string
+	for _, st := range sites {
+		names = append(names, cfNames[st.idx])
+	}
+	probes := append(append([]string{}, names...), "zz.test")
+	var auths strings.Builder
+	var served []string
+	anyCert := false
+	authOf := map[string]tls.ClientAuthType{}
+	for _, sni := range probes {
+		cfg, err := tlsCfg.GetConfigForClient(mkHello(sni, 0, 6))
+		if err != nil || cfg == nil {
+			auths.WriteString("-")
+			continue
+		}
+		auths.WriteString(strconv.Itoa(int(cfg.ClientAuth)))
+		authOf[sni] = cfg.ClientAuth
+		if cfg.ClientAuth != tls.NoClientCert {
+			anyCert = true
+		}
+	}
+	for _, sni := range probes {
+		for _, host := range names {
+			r := httptest.NewRequest("GET", "https://placeholder.invalid/", nil)
+			r.Host = host
+			r.TLS = &tls.ConnectionState{ServerName: sni}
+			rec := httptest.NewRecorder()
+			srv.ServeHTTP(rec, r)
+			body := rec.Body.String()
+			var res string
+			switch {
+			case rec.Code == 200 && strings.HasPrefix(body, "S"):
+				res = "in:" + body[1:]
+			case rec.Code == 200 && body == "":
+				res = "in:*"
+			case rec.Code == http.StatusMisdirectedRequest:
+				res = "421"
+			default:
+				res = "s" + strconv.Itoa(rec.Code)
+			}
+			served = append(served, res)
+			// ---- the property through the Caddyfile: a request routed to a site whose own
+			// connection policy asks for a client certificate arrived on a connection whose policy
+			// asked for one too (same ClientAuth type), unless strict checking was switched off
+			if f[1] != "f" && strings.HasPrefix(res, "in:") && res != "in:*" && authOf[host] != tls.NoClientCert && authOf[sni] != authOf[host] {
+				fail("client-auth-site-reached-under-other-policy", fmt.Sprintf("Caddyfile:\n%s\nSNI %q (policy ClientAuth=%v), Host %q (its policy: ClientAuth=%v): request reached that site's handler", sb.String(), sni, authOf[sni], host, authOf[host]))
+			}
+		}
+	}
+	if anyCert && f[1] != "f" && !strict {
+		fail("strict-sni-host-not-enabled", fmt.Sprintf("Caddyfile:\n%s\na connection policy asks for client certificates, strict_sni_host is not switched off, but the server does not enforce strict SNI-Host", sb.String()))
+	}
+	if anyCert {
+		tag("cf:some-policy-asks-for-cert")
+	}
+	o.Impl = "strict=" + b01(strict) + " a=" + auths.String() + " r=" + strings.Join(served, ",")
+	return o
 }
